@@ -405,6 +405,13 @@ class Prover:
                 res.append((op, d[2], d[3]))
             elif util.is_call(d, "core::str::<impl str>::is_empty") or util.is_call(d, "core::slice::<impl [T]>::is_empty"):
                 res.append(("Eq" if truth else "Ne", ("len", d[2][0]), ("int", 0, "usize")))
+            elif util.is_call(d) and d[1] in ("<std::option::Option<T> as std::cmp::PartialEq>::eq", "<std::option::Option<T> as std::cmp::PartialEq>::ne") and len(d[2]) == 2 and truth == d[1].endswith("::eq"):
+                # s.get(i) == Some(..) holds: i < s.len()
+                ops_ = [strip(x_) for x_ in d[2]]
+                g_ = [o_ for o_ in ops_ if util.is_call(o_) and o_[1].endswith("<impl [T]>::get") and len(o_[2]) == 2 and strip(o_[2][1])[0] != "agg"]
+                sm_ = [o_ for o_ in ops_ if o_[0] == "agg" and o_[2] == "std::option::Option" and o_[3] == 1]
+                if len(g_) == 1 and len(sm_) == 1:
+                    res.append(("Lt", util.numnorm(g_[0][2][1]), ("len", util.numnorm(g_[0][2][0]))))
             elif truth and util.is_call(d) and d[1].endswith("::contains") and ("std::ops::RangeInclusive" in d[1] or "std::ops::Range::" in d[1]) and len(d[2]) == 2:
                 # (a..=b).contains(&x) / (a..b).contains(&x) holds: a <= x and x <= b (x < b)
                 r_ = strip(d[2][0])
